@@ -119,10 +119,15 @@ def run_many_examples(rec, tier, seed):
             for i in range(N):
                 for j in range(S):
                     Rr[i, j, torch.from_numpy(rc[i, j]), torch.arange(L)] = 1
-            for src in ("tensor", "dinuc"):
+            def wrapped_refs(X, **kwargs):
+                # a caller's own reference function that forwards whatever it is given (restricting the shuffled region)
+                return dinucleotide_shuffle(X, start=1, end=L - 1, **kwargs)
+            for src in ("tensor", "dinuc", "wrapped"):
                 def kw(idx):
                     if src == "tensor":
                         return dict(references=Rr[idx])
+                    if src == "wrapped":
+                        return dict(references=wrapped_refs, random_state=7 + seed)
                     return dict(references=dinucleotide_shuffle, random_state=7 + seed)
                 canon = []
                 for i in range(N):
